@@ -188,5 +188,12 @@ func (n *Node) CheckCtx() sdk.Context {
 	return n.App.NewContextLegacy(true, cmtproto.Header{Height: n.Height, Time: n.Time, ChainID: ChainID})
 }
 
+// CopyOffChain copies what lives outside the application store from src: the EVM state (a deep copy) and the
+// transaction signing counter, so that the same unsigned transactions yield the same bytes on both nodes.
+func (n *Node) CopyOffChain(src *Node) {
+	n.EVM.Use(src.EVM.Cur().Clone())
+	n.txN = src.txN
+}
+
 // StoreHashes of committed state.
 func (n *Node) StoreHashes() map[string]string { return DumpStores(n.App, n.Ctx()) }
